@@ -185,6 +185,8 @@ type Extractor struct {
 	Implementers func(*types.Interface) []*types.Named
 	MaxDepth     int // how often one function may be active on the inlining stack
 	Funcs        map[string]bool // functions inlined (evidence)
+	synth  map[ast.Expr]bool // synthesized comparison nodes of desugared switches
+	tsDone bool
 	// Opaque: calls that cannot be inlined (external functions, interface methods, methods without source)
 	// become leaves named by their normalised text ("n.parent.AssignExpr()", "IsPtr(n.arg.ExprType())").
 	Opaque bool
@@ -192,7 +194,7 @@ type Extractor struct {
 
 // NewExtractor indexes function declarations of the given packages.
 func NewExtractor(pkgs []*packages.Package, impl func(*types.Interface) []*types.Named) *Extractor {
-	x := &Extractor{Pkgs: map[string]*packages.Package{}, decls: map[*types.Func]*ast.FuncDecl{}, declPkg: map[*types.Func]*packages.Package{}, Implementers: impl, MaxDepth: 3, Funcs: map[string]bool{}}
+	x := &Extractor{Pkgs: map[string]*packages.Package{}, decls: map[*types.Func]*ast.FuncDecl{}, declPkg: map[*types.Func]*packages.Package{}, Implementers: impl, MaxDepth: 3, Funcs: map[string]bool{}, synth: map[ast.Expr]bool{}}
 	for _, p := range pkgs {
 		x.Pkgs[p.PkgPath] = p
 		for _, f := range p.Syntax {
@@ -283,6 +285,10 @@ func (x *Extractor) execBlockT(pkg *packages.Package, stmts []ast.Stmt, e *env, 
 			return x.eval(pkg, s.Results[0], e)
 		case *ast.IfStmt:
 			return x.execIfT(pkg, s, stmts[i+1:], e, tail)
+		case *ast.SwitchStmt:
+			return x.execIfT(pkg, x.switchToIf(pkg, s), stmts[i+1:], e, tail)
+		case *ast.TypeSwitchStmt:
+			return x.execTypeSwitch(pkg, s, stmts[i+1:], e, tail)
 		case *ast.BlockStmt:
 			inner := newEnv(e)
 			if r := x.execBlock(pkg, s.List, inner); r != nil {
@@ -694,6 +700,11 @@ func (x *Extractor) execSimple(pkg *packages.Package, st ast.Stmt, e *env) {
 					return
 				}
 			}
+		}
+		// call of a module function/method that writes into accumulators passed by pointer
+		if fn, recv, ok := x.staticCallee(pkg, call, e); ok {
+			x.inlineEffects(fn, recv, call, pkg, e)
+			return
 		}
 		x.fail(s.Pos(), "unsupported call statement %s", exprString(call.Fun))
 	case *ast.RangeStmt:
@@ -1267,7 +1278,27 @@ func (x *Extractor) sprintf(pkg *packages.Package, call *ast.CallExpr, e *env) s
 		if i+1 >= len(f) {
 			x.fail(call.Pos(), "dangling %% in format")
 		}
-		switch f[i+1] {
+		j := i + 1
+		// explicit argument index %[n]v
+		if f[j] == '[' {
+			k := strings.IndexByte(f[j:], ']')
+			if k < 0 {
+				x.fail(call.Pos(), "bad argument index in format")
+			}
+			n := 0
+			for _, ch := range f[j+1 : j+k] {
+				if ch < '0' || ch > '9' {
+					x.fail(call.Pos(), "bad argument index in format")
+				}
+				n = n*10 + int(ch-'0')
+			}
+			arg = n
+			j += k + 1
+			if j >= len(f) {
+				x.fail(call.Pos(), "dangling argument index in format")
+			}
+		}
+		switch f[j] {
 		case 'v', 's':
 			if arg >= len(call.Args) {
 				x.fail(call.Pos(), "Sprintf: missing operand")
@@ -1282,9 +1313,9 @@ func (x *Extractor) sprintf(pkg *packages.Package, call *ast.CallExpr, e *env) s
 		case '%':
 			out = cat(out, Lit{S: "%"})
 		default:
-			x.fail(call.Pos(), "Sprintf verb %%%c", f[i+1])
+			x.fail(call.Pos(), "Sprintf verb %%%c", f[j])
 		}
-		f = f[i+2:]
+		f = f[j+1:]
 	}
 	return sStr{T: out}
 }
@@ -1418,4 +1449,263 @@ func ImplNames(d Dyn) []string {
 	}
 	sort.Strings(ks)
 	return ks
+}
+
+// switchToIf rewrites `switch [tag] { case a, b: …; default: … }` (no fallthrough, no init) into an if/else-if chain.
+func (x *Extractor) switchToIf(pkg *packages.Package, sw *ast.SwitchStmt) *ast.IfStmt {
+	if sw.Init != nil {
+		x.fail(sw.Pos(), "switch with an init statement")
+	}
+	var def *ast.CaseClause
+	var clauses []*ast.CaseClause
+	for _, st := range sw.Body.List {
+		cc := st.(*ast.CaseClause)
+		for _, b := range cc.Body {
+			if br, ok := b.(*ast.BranchStmt); ok && br.Tok == token.FALLTHROUGH {
+				x.fail(br.Pos(), "fallthrough")
+			}
+		}
+		if cc.List == nil {
+			def = cc
+		} else {
+			clauses = append(clauses, cc)
+		}
+	}
+	condOf := func(cc *ast.CaseClause) ast.Expr {
+		var c ast.Expr
+		for _, ex := range cc.List {
+			var one ast.Expr = ex
+			if sw.Tag != nil {
+				be := &ast.BinaryExpr{X: sw.Tag, Op: token.EQL, Y: ex, OpPos: ex.Pos()}
+				one = be
+				x.synth[be] = true
+			}
+			if c == nil {
+				c = one
+			} else {
+				be := &ast.BinaryExpr{X: c, Op: token.LOR, Y: one, OpPos: ex.Pos()}
+				x.synth[be] = true
+				c = be
+			}
+		}
+		return c
+	}
+	var build func(i int) ast.Stmt
+	build = func(i int) ast.Stmt {
+		if i == len(clauses) {
+			if def == nil {
+				return nil
+			}
+			return &ast.BlockStmt{List: def.Body, Lbrace: def.Pos()}
+		}
+		ifs := &ast.IfStmt{If: clauses[i].Pos(), Cond: condOf(clauses[i]), Body: &ast.BlockStmt{List: clauses[i].Body, Lbrace: clauses[i].Pos()}}
+		if el := build(i + 1); el != nil {
+			ifs.Else = el
+		}
+		return ifs
+	}
+	if len(clauses) == 0 {
+		x.fail(sw.Pos(), "switch without cases")
+	}
+	return build(0).(*ast.IfStmt)
+}
+
+// execTypeSwitch handles `switch n := a.(type) { case T: …; default: … }` on an IR interface location.
+func (x *Extractor) execTypeSwitch(pkg *packages.Package, sw *ast.TypeSwitchStmt, rest []ast.Stmt, e *env, tail bool) sym {
+	if sw.Init != nil {
+		x.fail(sw.Pos(), "type switch with an init statement")
+	}
+	var bindName *ast.Ident
+	var subject ast.Expr
+	switch a := sw.Assign.(type) {
+	case *ast.AssignStmt:
+		bindName, _ = a.Lhs[0].(*ast.Ident)
+		subject = a.Rhs[0].(*ast.TypeAssertExpr).X
+	case *ast.ExprStmt:
+		subject = a.X.(*ast.TypeAssertExpr).X
+	}
+	sv := x.eval(pkg, subject, e)
+	sp, ok := sv.(sPath)
+	if !ok {
+		x.fail(sw.Pos(), "type switch on a non-location")
+	}
+	var def *ast.CaseClause
+	var clauses []*ast.CaseClause
+	for _, st := range sw.Body.List {
+		cc := st.(*ast.CaseClause)
+		if cc.List == nil {
+			def = cc
+		} else {
+			clauses = append(clauses, cc)
+		}
+	}
+	// evaluate as a chain: each clause is a guarded branch whose else is the next clause
+	var run func(i int, e *env) sym
+	pre := e
+	run = func(i int, cur *env) sym {
+		if i == len(clauses) {
+			if def == nil {
+				return nil
+			}
+			inner := newEnv(cur)
+			if bindName != nil {
+				if o := pkg.TypesInfo.Implicits[def]; o != nil {
+					inner.def(o, sp)
+				}
+			}
+			r := x.execBlockT(pkg, def.Body, inner, tail && len(rest) == 0)
+			return r
+		}
+		cc := clauses[i]
+		if len(cc.List) != 1 {
+			x.fail(cc.Pos(), "type switch case with several types")
+		}
+		tt := pkg.TypesInfo.TypeOf(cc.List[0])
+		cond := GType{Path: sp.P, Type: typeName(tt)}
+		thenEnv := cur.clone()
+		inner := newEnv(thenEnv)
+		if bindName != nil {
+			if o := pkg.TypesInfo.Implicits[cc]; o != nil {
+				inner.def(o, sPath{P: sp.P, T: tt})
+			}
+		}
+		rThen := x.execBlockT(pkg, cc.Body, inner, tail && len(rest) == 0)
+		elseEnv := cur.clone()
+		rElse := run(i+1, elseEnv)
+		switch {
+		case rThen == nil && rElse == nil:
+			joinEnv(cur, cond, thenEnv, elseEnv)
+			return nil
+		case rThen != nil && rElse != nil:
+			return altSym(cond, rThen, rElse)
+		case rThen != nil:
+			// the else side falls through to the rest of the enclosing block
+			joinEnv(cur, GConst{false}, thenEnv, elseEnv)
+			rRest := x.execBlockT(pkg, rest, cur, tail)
+			if rRest == nil {
+				x.fail(cc.Pos(), "a type-switch case returns but the rest of the block does not")
+			}
+			x.tsDone = true
+			return altSym(cond, rThen, rRest)
+		default:
+			joinEnv(cur, GConst{true}, thenEnv, elseEnv)
+			rRest := x.execBlockT(pkg, rest, cur, tail)
+			if rRest == nil {
+				x.fail(cc.Pos(), "a type-switch case returns but the rest of the block does not")
+			}
+			x.tsDone = true
+			return altSym(cond, rRest, rElse)
+		}
+	}
+	x.tsDone = false
+	r := run(0, pre)
+	if r != nil {
+		return r
+	}
+	return x.execBlockT(pkg, rest, e, tail)
+}
+
+// staticCallee resolves a call to a module function or a method on a concrete IR location.
+func (x *Extractor) staticCallee(pkg *packages.Package, call *ast.CallExpr, e *env) (*types.Func, sym, bool) {
+	info := pkg.TypesInfo
+	switch fun := call.Fun.(type) {
+	case *ast.Ident:
+		if fn, ok := info.Uses[fun].(*types.Func); ok && x.decls[fn] != nil {
+			return fn, nil, true
+		}
+	case *ast.SelectorExpr:
+		if id, ok := fun.X.(*ast.Ident); ok {
+			if _, isPkg := info.Uses[id].(*types.PkgName); isPkg {
+				if fn, ok := info.Uses[fun.Sel].(*types.Func); ok && x.decls[fn] != nil {
+					return fn, nil, true
+				}
+				return nil, nil, false
+			}
+		}
+		if sel := info.Selections[fun]; sel != nil {
+			if fn, ok := sel.Obj().(*types.Func); ok && x.decls[fn] != nil {
+				if _, isIface := sel.Recv().Underlying().(*types.Interface); !isIface {
+					return fn, x.eval(pkg, fun.X, e), true
+				}
+			}
+		}
+	}
+	return nil, nil, false
+}
+
+func isBuilderPtr(t types.Type) bool {
+	p, ok := t.Underlying().(*types.Pointer)
+	if !ok {
+		return false
+	}
+	ts := p.Elem().String()
+	return ts == "strings.Builder" || ts == "bytes.Buffer"
+}
+
+// inlineEffects inlines a call used for its effect on accumulators handed over by pointer: inside the callee the
+// parameter is a fresh accumulator; what the callee wrote is appended to the caller's accumulator afterwards.
+func (x *Extractor) inlineEffects(fn *types.Func, recv sym, call *ast.CallExpr, pkg *packages.Package, e *env) sym {
+	fd := x.decls[fn]
+	fpkg := x.declPkg[fn]
+	if x.active(fn) >= x.MaxDepth {
+		x.fail(call.Pos(), "recursive effectful helper %s", fn.FullName())
+	}
+	ne := newEnv(nil)
+	if fd.Recv != nil && len(fd.Recv.List) == 1 && len(fd.Recv.List[0].Names) == 1 && recv != nil {
+		ne.def(fpkg.TypesInfo.Defs[fd.Recv.List[0].Names[0]], recv)
+	}
+	type out struct{ param, target types.Object }
+	var outs []out
+	i := 0
+	for _, f := range fd.Type.Params.List {
+		for _, n := range f.Names {
+			if i >= len(call.Args) {
+				x.fail(call.Pos(), "variadic or missing arguments")
+			}
+			po := fpkg.TypesInfo.Defs[n]
+			arg := call.Args[i]
+			i++
+			if po == nil {
+				continue
+			}
+			if isBuilderPtr(po.Type()) {
+				// &sb or sb (already a pointer parameter of the caller)
+				var id *ast.Ident
+				switch a := arg.(type) {
+				case *ast.UnaryExpr:
+					id, _ = a.X.(*ast.Ident)
+				case *ast.Ident:
+					id = a
+				}
+				if id == nil {
+					x.fail(arg.Pos(), "builder argument is not a variable")
+				}
+				target := pkg.TypesInfo.Uses[id]
+				if _, ok := e.get(target); !ok {
+					x.fail(arg.Pos(), "builder argument is not a known accumulator")
+				}
+				ne.def(po, sStr{T: Seq{}})
+				outs = append(outs, out{po, target})
+				continue
+			}
+			ne.def(po, x.eval(pkg, arg, e))
+		}
+	}
+	x.stack = append(x.stack, fn)
+	x.Funcs[fn.FullName()] = true
+	r := x.execBlockT(fpkg, fd.Body.List, ne, true)
+	x.stack = x.stack[:len(x.stack)-1]
+	for _, o := range outs {
+		cur, _ := e.get(o.target)
+		acc, ok1 := cur.(sStr)
+		wrote, ok2 := ne.vars[o.param].(sStr)
+		if !ok1 || !ok2 {
+			x.fail(call.Pos(), "accumulator lost in helper %s", fn.Name())
+		}
+		e.set(o.target, sStr{T: cat(acc.T, wrote.T)})
+	}
+	if _, void := r.(sVoid); void || r == nil {
+		return sNone{}
+	}
+	return r
 }
